@@ -1079,7 +1079,8 @@ def g_r9_same_section(p: Project, rep: Report):
     writes = [s.value for s in ast.walk(mk) if isinstance(s, ast.Subscript) and text(s.value) == "USERCFG" and "server" in mkx.t(s.slice)]
     wkeys = {norm_(mkx.t(s.slice)) for s in ast.walk(mk) if isinstance(s, ast.Subscript) and text(s.value) == "USERCFG" and "server" in mkx.t(s.slice)}
     rkeys = {norm_(mcx.t(c.args[1])) for c in reads}
-    if not rkeys or not wkeys:
+    if not rkeys or not wkeys or not all("A['server']" in k for k in rkeys | wkeys):
+        # a key that is not spelled in terms of the option mapping (a local filled in by an inlined helper) is not compared
         rep.note("G-R9 undecided: the section read by merge_config / written by mk_server_cfg was not recognised")
         return
     ok = rkeys == wkeys
